@@ -5,6 +5,7 @@ import random
 
 from harness import projgen, tlc
 from harness.checks import scan_common as sc
+from harness.checks import wild_common as wc
 from harness.result import CheckResult
 
 ASSUMPTIONS = [
@@ -67,6 +68,9 @@ def run(ctx):
         p = projgen.random_project(rng, max_depth=rng.choice([3, 4, 5]), n_dirs=rng.randint(3, 9), positions=False,
                                    n_stmts=rng.randint(5, 40))
         specs.append(episode_for(p, rng, 10))
+    # real source trees found on this machine (harness/wild.py), abstracted independently of pytestarch
+    wspecs, wtrees = wc.specs(ctx, random.Random(ctx.seed * 7919 + 100), "C09")
+    specs += wspecs
     tr, episodes, fails = sc.run_and_validate(specs)
     st = sc.stats(episodes)
     flips = 0
@@ -79,7 +83,7 @@ def run(ctx):
     fail_verdicts = sum(1 for ep in episodes for e in ep if e["k"] == "seval" and e["out"] == "fail")
     if not st["law_instances"].get("quotient") or not st["law_instances"].get("verdict") or not fail_verdicts:
         raise tlc.MachineryError(f"vacuous run: {st}")
-    cov = {"states": mc.distinct + tr.states, "transitions": mc.generated + tr.transitions,
+    cov = {"real_source_trees": wtrees, "states": mc.distinct + tr.states, "transitions": mc.generated + tr.transitions,
            "model_states": mc.distinct, "model_transitions": mc.generated,
            "traces_validated_against_impl": len(episodes), "trace_events": tr.events,
            "limited_scans": shrunk, "failing_verdicts_compared": fail_verdicts, "random_projects": n_rand, **st,
